@@ -8,7 +8,7 @@ an integer constant sigma that is a solver variable, so whether a call fails in 
 the solver, not hard-wired:
    substitute(b and 1/(x - sigma) <= 2, {x: 3})      ZeroDivisionError (type checker, inside the substituter)  iff sigma = 3
    substitute(b and f(x), {x: sigma}), f(i:int[0,5])  rejected up front iff sigma outside [0,10]; UPTypeError mid-walk iff 5 < sigma <= 10
-   simplify(exists v:int[0,5]. v = sigma and f(v))    UPTypeError from the nested substitution               iff sigma outside [0,5]
+   simplify(exists v:int[0,10]. v = sigma and f(v))   UPTypeError inside the nested substitution v := sigma  iff 5 < sigma <= 10
    simplify(1 / F(sigma) <= 2), F(v) = v - 2          ZeroDivisionError in Simplifier.walk_div               iff sigma = 2
    evaluate(b and 1/(x - sigma) <= 2, x = 3)          ZeroDivisionError in the StateEvaluator                iff sigma = 3
    evaluate((u <= 3) and b), u has no value           UPStateMissingFluentError; quantifier removal over an int variable fails
@@ -87,7 +87,7 @@ def _world(ctx, sigma):
         w.fp = Fluent("p", tm.BoolType(), environment=env, o=T)
         w.F = InterpretedFunction("F", tm.IntType(), OrderedDict([("v", tm.IntType())]), _minus_two, env)
         w.vy = Variable("y", T, env)
-        w.vv = Variable("v", tm.IntType(0, 5), env)
+        w.vv = Variable("v", tm.IntType(0, 10), env)
         prob = Problem("c14", env)
         for fl in (w.fx, w.fu, w.fb, w.fc, w.ff, w.fp):
             prob.add_fluent(fl)
@@ -257,7 +257,7 @@ def h_history(ctx, pool, n_calls, first=None, sym=True, sigmas=(2, 3, 4, 7, 12))
 FAILING_FIRST = ["sub:0:0", "sub:1:1", "sub:8:1", "simp:2", "simp:3", "ev:0", "ev:7", "qr:2", "build:1", "build:2", "build:3"]
 # substitutions that put the POINT type [c - sigma, c - sigma] under a Div make TypeChecker.walk_div divide a float by a symbolic int
 # (a floating-point solver query that times out): those calls run with concrete sigma only (direct shards)
-CONCRETE_ONLY = {"sub:0:0", "sub:0:3", "build:3"}
+CONCRETE_ONLY = set()
 POOLS = {
     "sub:0:0": ["sub:0:0", "sub:0:3", "sub:4:0", "sub:4:3", "simp:0", "type:4", "build:0"],
     "sub:1:1": ["sub:1:1", "sub:1:3", "sub:8:1", "sub:9:1", "simp:1", "type:8", "build:1"],
@@ -288,8 +288,9 @@ def shards(tier, seed):
                     per_path=30))
     # concrete sigma, real dict, direct engine: every call of the history is a choice
     for f in FAILING_FIRST:
-        out.append(dict(name=f"direct-{f.replace(':', '_')}", fn="h_history", kwargs=dict(pool=POOLS[f], n_calls=n, sym=False), budget=2700 if deep else 300,
-                        engine="direct"))
+        # (the direct engine's budget is wall time; the machine is shared)
+        out.append(dict(name=f"direct-{f.replace(':', '_')}", fn="h_history", kwargs=dict(pool=POOLS[f][:7 if deep else 6], n_calls=n, sym=False),
+                        budget=2700 if deep else 600, engine="direct"))
     return out
 
 
